@@ -183,13 +183,16 @@ def float_literal_cases(ctx):
              "000000000000000000000000000000000000000000000000000000000000000000000000000000000000000000000000000000000000000000000000000000000000"
              "00000000000000000000000000000000000000000000000.0", "4.9e-324", "2.2250738585072014e-308", "2.2250738585072011e-308",
              "0.000000000000000000000000000000000000000000000000000000000001", "1e23", "8.5e22", "5e-324", "2e-324", "3e-324", "1e0", "1e00007",
-             "1.7976931348623157e308", "1.7976931348623159e308", "1e99999999999999999999", "1e-99999999999999999999", "00012.50"]
+             "1.7976931348623157e308", "1.7976931348623159e308", "1e99999999999999999999", "1e-99999999999999999999", "00012.50",
+             # explicitly positive exponents (what serde_json / Python print for large floats)
+             "1e+21", "1E+21", "2.5E+3", "2.5e+3", "1.e+5", "0.0e+0", "1e+0", "1e+00007", "1.7976931348623157e+308", "1.7976931348623159e+308", "1e+400",
+             "1e+99999999999999999999", "123456789e+300", "4.9e-324", "9007199254740993e+0", "5e+22", "1e+23"]
     for _ in range(ctx.n(60, 1500)):
         ip = str(rng.randrange(0, 10 ** rng.randrange(1, 25)))
         fp = "".join(rng.choice("0123456789") for _ in range(rng.randrange(0, 25)))
         t = ip + "." + fp if rng.random() < 0.7 else ip
         if rng.random() < 0.5:
-            t += rng.choice("eE") + rng.choice(["", "-"]) + str(rng.randrange(0, 330))
+            t += rng.choice("eE") + rng.choice(["", "-", "+"]) + str(rng.randrange(0, 330))
         elif "." not in t:
             t += "f"
         texts.append(t)
@@ -201,8 +204,9 @@ def float_literal_cases(ctx):
         if "e" not in t.lower() and not t.lower().endswith("f"):
             for suf in "ij" if rng.random() < 0.3 else "i":
                 cases.append(dict(group="imag", form="imag", src=t + suf, want="C0000000000000000," + fbits(x), tok="Imag:" + fbits(x)))
-    for t in ["1e", "1e-", "1.e", "1.5e-", "2E"]:     # empty exponent: Invalid token -> parse error, never a number
-        cases.append(dict(group="float-bad", form="bad", src=t, want="parse", tok="Invalid"))
+    for t in ["1e", "1e-", "1.e", "1.5e-", "2E", "1e+", "1.5E+", "1e+-5", "1e-+5", "1e++5"]:     # empty exponent: Invalid token -> parse error, never a number
+        # the token stream is exactly [Invalid] only when nothing follows the (signed) exponent marker
+        cases.append(dict(group="float-bad", form="bad", src=t, want="parse", tok="Invalid" if t[-1] in "eE+-" and t[-2] not in "+-" else None))
     return cases
 
 
@@ -381,7 +385,7 @@ FRAGS = ["if", "else", "while", "for", "yield", "into", "switch", "case", "null"
          "'", '"', "'a'", '"b"', "'\\n'", "'\\x41'", "'\\u{41}'", "'\\u41'", "'\\", "\\u{110000000}", "\\x", "\\u(", "∧", "∨", "?", "!", "!=", "==", "<=", ">=", "=",
          "+=", "-=", "//=", "...", "<-", "->", "<<-", "<<=", "+", "-", "*", "/", "%", "^", "~", "|", "&", "$", "@", ".", "..", "×", "∈", "∉", "∘", "≠", "≤", "≥", "⊕", "⧺",
          "!?", "+?", "0", "1", "007", "12345678901234567890123", "0x", "0xFf", "0b101", "0o17", "0B", "2r101", "36rZz", "37r1", "1r0", "0r", "64rAb+/-_", "64R",
-         "1.", "1.5", "1.5e3", "1e", "1e-", "1E-5", "1.e", "2i", "2.5j", "3q", "4f", "5.f", "6.5F", "1..2", "1.x", "1.f", "9e", "0xg", "1_000", "½", "€", "\x00", "\x7f", "\ufeff", "\U000e0001"]
+         "1.", "1.5", "1.5e3", "1e", "1e-", "1E-5", "1.e", "1e+21", "2.5E+3", "1e+", "1.e+", "1e+x", "2i", "2.5j", "3q", "4f", "5.f", "6.5F", "1..2", "1.x", "1.f", "9e", "0xg", "1_000", "½", "€", "\x00", "\x7f", "\ufeff", "\U000e0001"]
 
 
 def gen_strings(ctx, progs):
